@@ -334,3 +334,30 @@ func VPointInOpPolygon(pt Point64, ring Path64) int {
 	o := &OutRec{}
 	return int(pointInOpPolygon(pt, vSynthRing(o, ring)))
 }
+
+// VRectExecuteInternal runs the real RectClip64.executeInternal on one path (with pathBounds set as
+// Execute does) and returns the raw result rings, each read from results[i].next, before
+// checkEdges / tidyEdgePair; ok is false when the call panicked.
+func VRectExecuteInternal(rect Rect64, path Path64) (rings Paths64, ok bool) {
+	defer func() {
+		if recover() != nil {
+			rings, ok = nil, false
+		}
+	}()
+	r := NewRectClip64(rect)
+	r.pathBounds = getBounds(path)
+	r.executeInternal(path)
+	for _, op := range r.results {
+		var ring Path64
+		if op != nil {
+			for p := op.next; ; p = p.next {
+				ring = append(ring, p.pt)
+				if p == op {
+					break
+				}
+			}
+		}
+		rings = append(rings, ring)
+	}
+	return rings, true
+}
